@@ -3,6 +3,9 @@ import os
 
 
 def events_in(path):
+    if path.startswith("root://") or path.startswith("https://"):
+        # a remote file: //host/<absolute path> - served from the same tree
+        path = "/" + path.split("//", 2)[2].lstrip("/")
     with open(os.environ.get("VM_ROOT", "") + path if path.startswith("/data/") else path) as f:          # a missing input is an error, as in the real frameworks
         first = f.readline().split()
     if len(first) != 2 or first[0] != "EVENTS":
